@@ -70,7 +70,8 @@ def execute(row, seed, version=None, share=False):
         cl = {'A': {'Packet', 'Abs', 'A'}, 'B': {'Packet', 'B'}, 'U': {'Packet'}, 'D': {'Packet', 'D'}, 'C': {'Packet', 'C'}}[kind]
         return bool(set(l['f']) & cl)
     # an early listener that ignores the set-compression packet keeps the reaction from happening: the peer stays plain
-    c_suppressed = any(l['ig'] and matches(l, 'C') for l in row['EI'])
+    def c_suppressed(k):
+        return any(l['ig'] and matches(l, 'C') and not (l.get('late') and k <= row.get('lateK', 0)) for l in row['EI'])
 
     def payload(k, kind):
         if kind == 'C':
@@ -100,7 +101,7 @@ def execute(row, seed, version=None, share=False):
         steps.append(('pause', 'go'))
         for k, kind in enumerate(hist, 1):
             steps.append(('send', payload(k, kind)))
-            if kind == 'C' and not c_suppressed:
+            if kind == 'C' and not c_suppressed(k):
                 steps.append(('compress', THR0 + k))
             if not row['batch']:
                 steps.append(('pause', 'p%d' % k))
@@ -154,7 +155,9 @@ def execute(row, seed, version=None, share=False):
         while any(pools.values()):
             n = rng.choice([n for n in names if pools[n]])
             merged.append(pools[n].pop(0))
-        for j in merged:
+        late_regs = []
+
+        def register(j):
             name, i, l, early, outgoing = regs[j]
             types = []
             for f in l['f']:
@@ -176,10 +179,18 @@ def execute(row, seed, version=None, share=False):
                 c.register_packet_listener(cbk, *types, early=early, outgoing=outgoing)
             else:                       # the decorator spelling of the same registration
                 c.listener(*types, early=early, outgoing=outgoing)(cbk)
+        for j in merged:
+            if regs[j][2].get('late'):
+                late_regs.append(j)         # registered later, while packets of that class have already been dispatched
+            else:
+                register(j)
         holder['sc'].resume('go')
         if not row['batch']:
             for k in range(1, len(hist) + 1):
                 run.settle()
+                if k == row.get('lateK', 0):
+                    for j in late_regs:
+                        register(j)
                 holder['sc'].resume('p%d' % k)
         run.settle()
         # finally the user writes a packet with force=True (kind RA, occurrence 99); IgnorePacket must not escape
@@ -264,7 +275,7 @@ def run(chk):
     for j in range(n_big):
         st = rng.choice(['play', 'play', 'login'])
         def lst(mx):
-            return [{'f': rng.choice(FILT), 'ig': rng.random() < 0.25, 'dc': False} for _ in range(rng.randint(0, mx))]
+            return [{'f': rng.choice(FILT), 'ig': rng.random() < 0.25, 'dc': False, 'late': False} for _ in range(rng.randint(0, mx))]
         kinds = ['A', 'A', 'U', 'B'] if st == 'play' else ['A', 'A', 'U']
         if rng.random() < 0.35:
             kinds = kinds + ['C']
@@ -272,8 +283,22 @@ def run(chk):
         if ei and rng.random() < 0.2:
             d_ = rng.choice(ei)
             d_['dc'], d_['ig'] = True, False
-        row = {'EI': ei, 'OI': lst(3), 'EO': lst(3), 'OO': lst(3), 'st': st, 'batch': rng.random() < 0.5, 'forced': True,
-               'hist': [rng.choice(kinds) for _ in range(rng.randint(1, 6))] + ['D']}
+        oi = lst(3)
+        batch_ = rng.random() < 0.5
+        n_hist = rng.randint(1, 6)
+        late_k = 0
+        if not batch_ and n_hist >= 2 and rng.random() < 0.4:
+            # some incoming listeners - superclass filters among them - are registered only after packet late_k
+            late_k = rng.randint(1, n_hist - 1)
+            for lst_ in (ei, oi):
+                for l_ in lst_:
+                    if rng.random() < 0.5 and not l_['dc']:
+                        l_['late'] = True
+                        if rng.random() < 0.6:
+                            l_['f'] = rng.choice([['Packet'], ['Abs'], ['A', 'Packet']])
+                lst_.sort(key=lambda l_: l_['late'])        # registration order: the late ones come last
+        row = {'EI': ei, 'OI': oi, 'EO': lst(3), 'OO': lst(3), 'st': st, 'batch': batch_, 'forced': True, 'lateK': late_k,
+               'hist': [rng.choice(kinds) for _ in range(n_hist)] + ['D']}
         row['shared'] = (j % 3 == 2)
         run_, log, wire, closed, version = execute(row, chk.seed * 31337 + j, share=row['shared'])
         chk.traces += 1
